@@ -915,8 +915,14 @@ func record(path string, seed int64, runs, spe, maxSlot int, res *vh.Result) {
 		beh := fmt.Sprintf("own-%d", r)
 		w := newWorld(spe, res, beh)
 		tw.Emit(map[string]any{"event": "Reset"})
-		nsteps := 8 + rng.Intn(18)
+		nsteps := 12 + rng.Intn(30)
 		signed := 0
+		emitPost := func(ev map[string]any) {
+			if ev["event"] != "Tick" && ev["event"] != "Restart" {
+				ev["post"] = w.project().toMap()
+			}
+			tw.Emit(ev)
+		}
 		for s := 0; s < nsteps; s++ {
 			w.step = s
 			clock := int(w.net.slot.Load())
@@ -924,12 +930,23 @@ func record(path string, seed int64, runs, spe, maxSlot int, res *vh.Result) {
 			ev := map[string]any{}
 			x := rng.Intn(100)
 			if s == 0 && rng.Intn(5) != 0 {
-				x = 20 // most executions start by registering the share
+				x = 25 // most executions start by registering the share
 			}
 			switch {
-			case x < 18 && clock < maxSlot:
-				w.net.slot.Store(uint64(clock + 1))
-				ev = map[string]any{"event": "Tick", "clock": clock + 1}
+			case x < 22 && clock < maxSlot:
+				// one slot, or on to the next epoch (histories are meant to span six and more epochs)
+				n := 1
+				if rng.Intn(2) == 0 {
+					n = spe
+				}
+				for k := 0; k < n && clock < maxSlot; k++ {
+					clock++
+					w.net.slot.Store(uint64(clock))
+					if k < n-1 && clock < maxSlot {
+						tw.Emit(map[string]any{"event": "Tick", "clock": clock})
+					}
+				}
+				ev = map[string]any{"event": "Tick", "clock": clock}
 			case x < 30:
 				p := randPlan(rng, "AddShare")
 				out, fired, _ := w.addShare(p)
@@ -937,13 +954,30 @@ func record(path string, seed int64, runs, spe, maxSlot int, res *vh.Result) {
 					p = plan{K: "none"}
 				}
 				ev = map[string]any{"event": "AddShare", "fault": p.toMap(), "res": out}
-			case x < 37:
+			case x < 38:
 				p := randPlan(rng, "RemoveShare")
 				out, fired, _ := w.removeShare(p)
 				if !fired {
 					p = plan{K: "none"}
 				}
 				ev = map[string]any{"event": "RemoveShare", "fault": p.toMap(), "res": out}
+				if rng.Intn(10) < 7 {
+					// removal and re-registration of the validator: the re-add follows (possibly epochs later)
+					emitPost(ev)
+					if rng.Intn(3) == 0 && clock+spe <= maxSlot {
+						for k := 0; k < spe; k++ {
+							clock++
+							w.net.slot.Store(uint64(clock))
+							tw.Emit(map[string]any{"event": "Tick", "clock": clock})
+						}
+					}
+					p2 := randPlan(rng, "AddShare")
+					out2, fired2, _ := w.addShare(p2)
+					if !fired2 {
+						p2 = plan{K: "none"}
+					}
+					ev = map[string]any{"event": "AddShare", "fault": p2.toMap(), "res": out2}
+				}
 			case x < 43:
 				p := randPlan(rng, "Reactivate")
 				out, fired, _ := w.reactivate(p)
@@ -989,10 +1023,7 @@ func record(path string, seed int64, runs, spe, maxSlot int, res *vh.Result) {
 				}
 				ev = map[string]any{"event": "SignBlk", "slot": slot, "d": d, "fault": p.toMap(), "res": out}
 			}
-			if ev["event"] != "Tick" && ev["event"] != "Restart" {
-				ev["post"] = w.project().toMap()
-			}
-			tw.Emit(ev)
+			emitPost(ev)
 		}
 		res.Behaviours++
 		res.Steps += nsteps
